@@ -19,6 +19,8 @@ SQUEEZE = "squeeze"      # values AND thresholds through the increasing map k ->
 
 
 def tmap(t, scale):
+    if t == PINF:
+        return float("inf")            # "no upper bound" for this feature: nothing exceeds it
     return 1.0 + t * 2.0 ** -40 if scale == SQUEEZE else t / scale
 
 
@@ -121,10 +123,11 @@ def job_seg(args):
     k, = args
     rows = list(itertools.product([0, 1, 2, NANV, PINF, NINF], repeat=k))
     out = []
-    for thr in itertools.product([0, 1, 2], repeat=k):
+    for thr in itertools.product([0, 1, 2, PINF], repeat=k):
         for mode in ("and", "or"):
             out.append(call_seg(rows, thr, mode))
-            out.append(call_seg(rows, thr, mode, scale=SQUEEZE))
+            if PINF not in thr:
+                out.append(call_seg(rows, thr, mode, scale=SQUEEZE))
     if k >= 2:
         rows_d = [(r[0],) + tuple(r) for r in itertools.product([0, 1, 2, NANV, PINF, NINF], repeat=k - 1)]
         for thr in itertools.product([0, 1, 2], repeat=k):
